@@ -494,7 +494,7 @@ open Resolve in
 /-- OVERLOADED_ATTR quotes (attribute, supertype) where the supertype really has an attribute of that name -/
 theorem C20_blame_overloaded_attribute (p : String) (s : Schema) (fuel : Nat) (e : Entity) (d : Diag)
     (h : d ∈ overloadDiags p s fuel e) :
-    ∃ a ∈ e.attrs, a.redeclOf = none ∧ ∃ sup ∈ supersOf s e, namedAttr s a.name fuel sup = some true ∧
+    ∃ a ∈ e.attrs, a.redeclOf = none ∧ ∃ sup ∈ supersOf s e, overloadFound s a.name fuel sup = some true ∧
       d.line = a.line ∧ d.args = [sArg a.name, sArg (declName sup)] :=
   overload_blames p s fuel e d h
 
@@ -575,5 +575,45 @@ theorem C20_buffered_messages_end_their_line (r : BufRun) (c : List Char) (h : c
     the buffered run goes on with the remaining diagnostics, whatever the fill state -/
 theorem C20_full_buffer_does_not_end_the_run : LibErrors.bufferFullEndsRun = false ∧ LibErrors.succeedFlushes = true := by
   decide
+
+/-- **which symbol and which expressions each report site passes, for the sites where the kinds cannot tell a swap** (two or more
+    arguments of one kind): the regenerated list `ReportSites.argExprs` is the list below.  This is what the model's `mk path CODE line
+    [args]` rests on — e.g. MISSING_SUPERTYPE is reported at the SUBTYPE's symbol with (supertype name, subtype name), OVERLOADED_ATTR at
+    the attribute with (attribute, supertype), REF_NONEXISTENT at the item with (item, schema), WRONG_ARG_COUNT with (name, arguments
+    written, parameters declared).  The file / line attribution theorems and the `C20_blame_*` theorems above are statements about the
+    MODEL's diagnostics (inversion of `mk`); that the tool's call sites pass these symbols in this order is pinned here (a swapped
+    pair of names at one of these sites no longer checks) and compared by the correspondence -/
+theorem C20_report_site_argument_order :
+    ReportSites.argExprs = [
+      ("dict.c", "DUPLICATE_DECL_DIFF_FILE", ["sym", "name", "old->symbol->line", "old->symbol->filename"]),
+      ("dict.c", "DUPLICATE_DECL_DIFF_FILE", ["sym", "name", "e2->symbol->line", "e2->symbol->filename"]),
+      ("entity.c", "UNKNOWN_SUPERTYPE", ["grp_ref", "grp_ref->name", "e->symbol.name"]),
+      ("entity.c", "UNKNOWN_ATTR_IN_ENTITY", ["attr_ref", "attr_ref->name", "ref_entity->symbol.name"]),
+      ("entity.c", "UNKNOWN_ATTR_IN_ENTITY", ["attr_ref", "attr_ref->name", "e->symbol.name"]),
+      ("expr.c", "ENUM_NO_SUCH_ITEM", ["&op2->symbol", "op1type->symbol.name", "op2->symbol.name"]),
+      ("expr.c", "WARN_UNSUPPORTED_LANG_FEAT", ["&e->symbol", "\"indexingonaBINARY\"", "__FILE__", "__LINE__"]),
+      ("express.c", "FILE_UNREADABLE", ["", "filename", "strerror(errno)"]),
+      ("express.c", "REF_NONEXISTENT", ["r->old", "r->old->name", "r->schema->symbol.name"]),
+      ("express.c", "SCHEMA_NOT_IN_OWN_SCHEMA_FILE", ["", "name", "dir->full"]),
+      ("lexact.c", "LITERAL_OUT_OF_RANGE", ["yylineno", "\"REAL\"", "yytext"]),
+      ("lexact.c", "LITERAL_OUT_OF_RANGE", ["yylineno", "\"INTEGER\"", "yytext"]),
+      ("lexact.c", "WARN_UNSUPPORTED_LANG_FEAT", ["yylineno", "\"INCLUDE:thefileisnotread\"", "__FILE__", "__LINE__"]),
+      ("resolve.c", "SYNTAX", ["&sym", "\"Morethan\"RESOLVE_STR(RESOLVE_MAX_NESTING)\"levelsofnesting\"", "\"one\"", "what"]),
+      ("resolve.c", "WRONG_ARG_COUNT", ["&expr->symbol", "expr->symbol.name", "LISTget_length(expr->u.funcall.list)", "f->u.func->pcount"]),
+      ("resolve.c", "WRONG_ARG_COUNT", ["&expr->symbol", "expr->symbol.name", "0", "((Function)x)->u.func->pcount"]),
+      ("resolve.c", "NOT_A_VALUE", ["&expr->symbol", "expr->symbol.name", "OBJget_type(DICT_type)"]),
+      ("resolve.c", "UNKNOWN_SUBTYPE", ["&ent->symbol", "expr->symbol.name", "ent->symbol.name"]),
+      ("resolve.c", "SUBTYPE_RESOLVE", ["&ent->symbol", "expr->symbol.name", "sym->name", "sym->line"]),
+      ("resolve.c", "NOT_A_TYPE", ["&type->symbol", "type->symbol.name", "OBJget_type(DICT_type)"]),
+      ("resolve.c", "INVERSE_BAD_ATTR", ["v->inverse_symbol", "v->inverse_symbol->name", "type->u.type->body->entity->symbol.name"]),
+      ("resolve.c", "REDECL_NO_SUCH_SUPERTYPE", ["&attr->name->e.op1->e.op2->symbol", "attr->name->e.op1->e.op2->symbol.name", "VARget_simple_name(attr)"]),
+      ("resolve.c", "REDECL_NO_SUCH_ATTR", ["&attr->name->e.op2->symbol", "sname", "sup->symbol.name"]),
+      ("resolve.c", "OVERLOADED_ATTR", ["&attr->name->symbol", "attr->name->symbol.name", "supr->symbol.name"]),
+      ("resolve.c", "MISSING_SUPERTYPE", ["&sub->symbol", "ent->symbol.name", "sub->symbol.name"]),
+      ("resolve.c", "UNKNOWN_SUPERTYPE", ["sym", "sym->name", "e->symbol.name"]),
+      ("resolve.c", "UNIQUE_QUAL_REDECL", ["&(expr->e.op2->symbol)", "expr->e.op2->symbol.name", "e->symbol.name"]),
+      ("expparse.y", "SYNTAX", ["&sym", "\"Toomanynestedscopes\"", "CURRENT_SCOPE_TYPE_PRINTABLE", "CURRENT_SCOPE_NAME"]),
+      ("expparse.y", "SYNTAX", ["&sym", "\"Syntaxerror\"", "CURRENT_SCOPE_TYPE_PRINTABLE", "CURRENT_SCOPE_NAME"])] := by
+  rfl
 
 end StepModel.Express.C20
